@@ -469,6 +469,21 @@ def l_work(item, col):
             if want != (init_actor if name == "actor" else init_emb):
                 col.outcome("l_checkpoints_of_a_trained_policy")
 
+    # process history is part of the item: another, unrelated train_td7 call (own networks, own environment) that
+    # stops in the middle of an assessment window runs first, so state that survives between calls (module-level
+    # or default-argument objects) reaches the run under test in every process, also when the item is replayed alone
+    denv = ScriptEnv("cTccTccc", levels="90909090", horizon=10)
+    dst = create_td7_state(
+        denv, n_embedding_dimensions=3, state_embedding_hidden_nodes=[3], state_action_embedding_hidden_nodes=[3],
+        policy_sa_encoding_nodes=3, policy_hidden_nodes=[3], q_sa_encoding_nodes=3, q_hidden_nodes=[3], seed=seed + 50,
+    )
+    try:
+        train_td7(denv, dst.embedding, dst.embedding_optimizer, dst.actor, dst.actor_optimizer, dst.critic, dst.critic_optimizer,
+                  seed=seed + 50, total_timesteps=8, buffer_size=16, batch_size=2, learning_starts=WARMUP, target_delay=2, policy_delay=2,
+                  use_checkpoints=True, max_episodes_when_checkpointing=3, steps_before_checkpointing=2, reset_weight=0.5, progress_bar=False)
+    except Exception:  # noqa: BLE001 - the decoy is not under test
+        pass
+    col.outcome("l_runs_preceded_by_an_unrelated_train_td7_call")
     env.on_step = on_step
     lg.on_epoch = on_epoch
     detail0 = dict(script=script, levels=levels, config=cfg, warmup=WARMUP, horizon=T, seed=seed)
